@@ -143,6 +143,47 @@ def gen_moves(scn, rng):
     return out
 
 
+def gen_stale(scn, rng):
+    """Watch latency: the store changes (nodes die, servers are deleted or
+    re-created, instances come and go) while the master's watch events are still
+    in flight; it publishes a cycle computed on its stale view; then either the
+    events arrive and it runs on, or it dies and a new master takes over."""
+    apps = list(scn['apps'][:rng.randrange(1, len(scn['apps']) + 1)])
+    h = [('CreateApp', [a, rng.randrange(len(scn['aprofiles'])) + 1]) for a in apps]
+    if rng.random() < 0.5:
+        h.append(('Cycle', []))
+    servers = sorted(s for s, k in scn['server_init'].items() if k)
+    up, exists = set(servers), set(servers)
+    h.append(('Defer', []))
+    for _ in range(rng.randrange(1, 4)):
+        r = rng.random()
+        s = rng.choice(servers)
+        if r < 0.45 and s in exists and len(exists) > 1:
+            if s in up and rng.random() < 0.7:
+                h.append(('NodeDown', [s]))
+                up.discard(s)
+            h.append(('DeleteServer', [s]))
+            exists.discard(s)
+        elif r < 0.6 and s in up:
+            h.append(('NodeDown', [s]))
+            up.discard(s)
+        elif r < 0.7 and s not in exists:
+            h.append(('CreateServer', [s, rng.randrange(len(scn['sprofiles'])) + 1]))
+            exists.add(s)
+        elif r < 0.8 and apps:
+            h.append(('DeleteApp', [apps.pop(rng.randrange(len(apps)))]))
+        elif r < 0.9 and s in exists:
+            h.append(('SetPartition', [s, rng.choice(['_default', 'pB'])]))
+        else:
+            h.append(('Tick', [rng.choice([1, 6])]))
+    h.append(('StaleCycle', []))
+    tail = rng.choice([[('Restart', [])],
+                       [('Deliver', []), ('Cycle', []), ('Restart', [])],
+                       [('CrashRestart', [rng.randrange(1, 6)]), ('Restart', [])],
+                       [('Deliver', []), ('CrashCycle', [rng.randrange(1, 4)]), ('Restart', [])]])
+    return h + tail + [('Cycle', [])]
+
+
 def gen_lease_failover(scn, rng):
     """Long leases against reboot dates: instances with a multi-day lease are
     placed, days pass (the lease is still running, the servers' reboot dates come
@@ -220,6 +261,8 @@ def run(ctx, prop):
         for _ in range(16 if ctx.quick else 300):
             for hc in gen_moves(scn, rng):
                 hist.append(('moves', hc))
+        for _ in range(150 if ctx.quick else 3000):
+            hist.append(('stale', gen_stale(scn, rng)))
     if prop == 'C10' and not ctx.quick:
         for src, h in list(hist)[:150]:
             for hc in all_cuts(h):
